@@ -113,8 +113,10 @@ def _run(c, inp, B, W, kw):
                       W=None if W is None else W.copy(), K=Karg, baseline=inp["baseline"],
                       return_pred=True, _where="lsq_linear", **kw)
     wrec = W if (W is not None and W.ndim == 1) else None
-    est = c.call(gen.make_estimator, dreye, inp, w=(1.0 if wrec is None else wrec),
-                 _where="ReceptorEstimator+register_system")
+    est = inp.get("_live_estimator")
+    if est is None:
+        est = c.call(gen.make_estimator, dreye, inp, w=(1.0 if wrec is None else wrec),
+                     _where="ReceptorEstimator+register_system")
     if api == "fit(B)":
         return c.call(est.fit, B.copy(), _where="ReceptorEstimator.fit(B)", **kw)
     c.call(est.register_targets, B.copy(), W=(W.copy() if (W is not None and W.ndim == 2) else None),
@@ -223,4 +225,24 @@ def chk_case(inp, c):
     c.note("first_row", {"x": X[0], "B_pred": Bp[0], "target": B[0]})
 
 
-M.add("fit_vs_bvls", gen_case, chk_case, weight=1, min_held=200)
+M.add("fit_vs_bvls", gen_case, chk_case, weight=7, min_held=200)
+
+
+def gen_rereg(rng, i):
+    s = gen_case(rng, i)
+    s["rereg_seed"] = int(rng.integers(0, 2 ** 31 - 1))
+    s["api"] = ["fit(B)", "register_targets+fit()"][rng.integers(2)]
+    if s["wkind"] == "receptor":          # per-receptor weights are a constructor argument: keep the default here
+        s["wkind"], s["W"] = "none", None
+    if s["wkind"] == "sample":
+        s["api"] = "register_targets+fit()"
+    return s
+
+
+def chk_rereg(inp, c):
+    """The fit uses the CURRENTLY registered values: fit, change one registration on the same estimator, fit again and
+    judge the second answer against the new system."""
+    gen.rereg_check(c, dreye, inp, lambda est: est.fit(inp["B"]), chk_case)
+
+
+M.add("fit_after_reregistration", gen_rereg, chk_rereg, weight=1, min_held=40)
